@@ -3,21 +3,45 @@
 #include "ec_glue.h"
 /* ghost state */
 int g_l, g_len, g_k, g_rows, g_vec_i;
-unsigned char *g_t0, **g_c0, *g_dst, *g_hit_tbl;
+unsigned char *g_t0, **g_c0, *g_arena, *g_hit_tbl, *g_hit_tbl2;
 void *g_data;
 int g_hits, g_base_calls;
-size_t g_toff, g_tsize;
-int g_n;
+size_t g_tsize;
+size_t g_n, g_asize;
 unsigned char g_x, *g_a0;
 #include "splice_defaults.h"
 #include "erasure_code/ec_highlevel_func.c"
+
+/* Keep every stubbed kernel in the symbol table even if a (changed) glue function stops calling it: dfcc
+ * aborts when a --replace-call-with-contract target does not exist, which would turn a wrong-kernel bug into
+ * UNDECIDED instead of a failed postcondition. */
+#define EG_K3(kind, isa) (void *) gf_vect_##kind##_##isa, (void *) gf_2vect_##kind##_##isa, (void *) gf_3vect_##kind##_##isa
+#define EG_K5(kind, isa) EG_K3(kind, isa), (void *) gf_4vect_##kind##_##isa, (void *) gf_5vect_##kind##_##isa
+#define EG_K6(kind, isa) EG_K5(kind, isa), (void *) gf_6vect_##kind##_##isa
+void *const eg_keep_kernels[] = { EG_K6(dot_prod, sse),    EG_K6(dot_prod, avx),         EG_K6(dot_prod, avx2),
+                                  EG_K6(dot_prod, avx512), EG_K6(dot_prod, avx512_gfni), EG_K3(dot_prod, avx2_gfni),
+                                  EG_K6(mad, sse),         EG_K6(mad, avx),              EG_K6(mad, avx2),
+                                  EG_K6(mad, avx512),      EG_K6(mad, avx512_gfni),      EG_K5(mad, avx2_gfni),
+                                  (void *) ec_encode_data_base, (void *) ec_encode_data_update_base };
+
+/* pointer array of the output blocks: block r = arena + r (pairwise distinct, row computable from the
+ * pointer); straight-line so that the array is a constant table for the solver */
+#define EG_F1(i) coding[i] = arena + (i);
+#define EG_F4(i) EG_F1(i) EG_F1((i) + 1) EG_F1((i) + 2) EG_F1((i) + 3)
+#define EG_F16(i) EG_F4(i) EG_F4((i) + 4) EG_F4((i) + 8) EG_F4((i) + 12)
+#define EG_F64(i) EG_F16(i) EG_F16((i) + 16) EG_F16((i) + 32) EG_F16((i) + 48)
+#define EG_CODING                                                                                  \
+        unsigned char arena[EG_MAXROWS + 1];                                                       \
+        unsigned char *coding[EG_MAXROWS + 1];                                                     \
+        g_arena = arena;                                                                           \
+        EG_F64(0) EG_F64(64) EG_F64(128) EG_F64(192)
 
 #define HARNESS_ENC(isa)                                                                           \
         void h_ec_encode_data_##isa(void)                                                          \
         {                                                                                          \
                 int len, k, rows;                                                                  \
                 unsigned char *g_tbls, **data;                                                     \
-                unsigned char *coding[EG_MAXROWS]; /* nondeterministic block pointers */           \
+                EG_CODING                                                                          \
                 ec_encode_data_##isa(len, k, rows, g_tbls, data, coding);                          \
                 VCANARY();                                                                         \
         }
@@ -26,7 +50,7 @@ unsigned char g_x, *g_a0;
         {                                                                                          \
                 int len, k, rows, vec_i;                                                           \
                 unsigned char *g_tbls, *data;                                                      \
-                unsigned char *coding[EG_MAXROWS]; /* nondeterministic block pointers */           \
+                EG_CODING                                                                          \
                 ec_encode_data_update_##isa(len, k, rows, vec_i, g_tbls, data, coding);            \
                 VCANARY();                                                                         \
         }
@@ -49,5 +73,29 @@ h_ec_init_tables_gfni(void)
         int k, rows;
         unsigned char *a, *g_tbls;
         ec_init_tables_gfni(k, rows, a, g_tbls);
+        VCANARY();
+}
+
+/* lemma (the induction step left to paper by the glue contracts, mechanised): a table pointer that is at
+ * offset 0 for row 0 and advances by k*STRIDE from each row to the next is at offset r*k*STRIDE for row r */
+void
+h_eg_stride_lemma(void)
+{
+        unsigned char rows, k;
+        size_t off32 = 0, off8 = 0;
+        unsigned r;
+        for (r = 0; r < rows; r++)
+                /* clang-format off */
+                __CPROVER_assigns(r, off32, off8)
+                __CPROVER_loop_invariant(r <= rows && off32 == EG_PROD(r, k) * 32 && off8 == EG_PROD(r, k) * 8)
+                __CPROVER_decreases(rows - r)
+                /* clang-format on */
+                {
+                        VCANARY();
+                        off32 += (size_t) k * 32;
+                        off8 += (size_t) k * 8;
+                }
+        __CPROVER_assert(off32 == (size_t) rows * (size_t) k * 32 && off8 == (size_t) rows * (size_t) k * 8,
+                         "row r table offset == r*k*STRIDE");
         VCANARY();
 }
